@@ -200,10 +200,17 @@ type c20Case struct {
 	Later   int
 	Fault   string // "" | reset | abort-exc | dial-fail-once | read-error
 	Queue   int
+	// Precache: "" | before | during - CacheRegions (every region of the table
+	// discovered and connected at once by the client itself) before or during the burst
+	Precache string
 }
 
 func (c c20Case) String() string {
-	return fmt.Sprintf("servers=%d regions=%d first-users=%d later=%d fault=%s queue=%d", c.Servers, c.Regions, c.Users, c.Later, c.Fault, c.Queue)
+	s := fmt.Sprintf("servers=%d regions=%d first-users=%d later=%d fault=%s queue=%d", c.Servers, c.Regions, c.Users, c.Later, c.Fault, c.Queue)
+	if c.Precache != "" {
+		s += " cache-regions=" + c.Precache
+	}
+	return s
 }
 
 func runC20Case(c *fw.Ctx, id string, cs c20Case) {
@@ -281,6 +288,20 @@ func runC20Case(c *fw.Ctx, id string, cs c20Case) {
 	barrier := make(chan struct{})
 	var wg sync.WaitGroup
 	var failed int32
+	precache := func() {
+		var err error
+		if !within(30*time.Second, func() { err = client.CacheRegions([]byte("t")) }) || err != nil {
+			c.Violate(id, "conn:cache-regions-failed", fmt.Sprintf("CacheRegions: returned=%v err=%v: %s", err == nil, err, cs), cs)
+		}
+		c.Count("cache_regions_calls", 1)
+	}
+	switch cs.Precache {
+	case "before":
+		precache()
+	case "during":
+		wg.Add(1)
+		go func() { defer wg.Done(); <-barrier; precache() }()
+	}
 	for u := 0; u < cs.Users; u++ {
 		key := fmt.Sprintf("%03d", r.Intn(1000))
 		wg.Add(1)
@@ -347,7 +368,7 @@ func init() {
 		ID:    "C20",
 		Level: "exploration",
 		Rule: "seeded runs: 1..3 servers, 1..32 regions, 1..128 concurrent first users released by a barrier with random keys, " +
-			"then 0..20 later sequential discoveries; fault in {none, reset of all connections during the burst, abort exception " +
+			"optionally CacheRegions (all regions connected at once) before or during the burst, then 0..20 later sequential discoveries; fault in {none, reset of all connections during the burst, abort exception " +
 			"closing the connection, first dial refused, read error on the first connection, in-place split of a region that is " +
 			"alone on its server, first probe of a region answered 'region opening' (in both no connection fails)}. The client-side dial log must show " +
 			"one dial per address in fault-free runs, every re-dial only after all earlier connections to that address were closed " +
@@ -361,7 +382,7 @@ func init() {
 			return fw.Plan{Batches: 8, Parallel: 8, Timeout: 6 * time.Minute}
 		},
 		Floors: func(tier string) map[string]int64 {
-			return map[string]int64{"first_user_bursts": 600, "addresses_checked": 200, "redial_justifications_checked": 30, "fault_free_runs": 40, "in_place_splits": 40, "probe_opening_runs": 40}
+			return map[string]int64{"first_user_bursts": 600, "addresses_checked": 200, "redial_justifications_checked": 30, "fault_free_runs": 40, "in_place_splits": 40, "probe_opening_runs": 40, "cache_regions_calls": 150}
 		},
 		Run: func(c *fw.Ctx) {
 			r := c.Rand("c20")
@@ -369,7 +390,8 @@ func init() {
 			for i := 0; i < n; i++ {
 				cs := c20Case{Seed: r.Int63(), Servers: 1 + r.Intn(3), Regions: []int{1, 2, 4, 8, 16, 32}[r.Intn(6)],
 					Users: []int{1, 2, 8, 32, 128}[r.Intn(5)], Later: r.Intn(21), Queue: []int{1, 5, 100}[r.Intn(3)],
-					Fault: []string{"", "", "reset", "abort-exc", "dial-fail-once", "read-error", "split-lonely", "probe-opening"}[r.Intn(8)]}
+					Fault:    []string{"", "", "reset", "abort-exc", "dial-fail-once", "read-error", "split-lonely", "probe-opening"}[r.Intn(8)],
+					Precache: []string{"", "", "before", "during"}[r.Intn(4)]}
 				if cs.Fault == "split-lonely" {
 					cs.Servers = 2 + r.Intn(2)
 					if cs.Regions < 2 {
